@@ -155,6 +155,10 @@ func (w *world) fail(prop, oracle, sig string, format string, args ...any) {
 	if w.propOverride != "" && (prop == "C01" || prop == "C02" || prop == "C03" || prop == "C09") {
 		prop = w.propOverride
 		oracle = "replay-" + oracle
+	} else if w.cfg.Prop == "C05" && prop == "C07" {
+		// the leader's recovery snapshot stream: a follower records the declared index as its leader index,
+		// so a stream that is not the table at exactly that index breaks C05 as well
+		prop = "C05"
 	} else if w.cfg.Prop == "C12" && (prop == "C01" || prop == "C09") {
 		// C12 is decided through the store: with adversarial keys any collision, order inversion, decode
 		// mismatch or leak between the key spaces shows as a divergence from the sorted-map model
